@@ -123,6 +123,18 @@ def build_jobs(chk: Check, thorough: bool, rng) -> List[Dict[str, Any]]:
         for c in cuts:
             jobs.append({"label": label + "-truncated", "faults": [[c, 0]], "names": [("cut", c)], "size": c, "paths": paths, "suffix": ".img", "extra": None,
                          "data": (lambda image=image, c=c: image[:c])})
+    # valid images whose names collide in every way the naming code has a loop for: duplicates, pairs sharing a stem through
+    # different separators, stored names that look like generated ones ("A (2)")
+    for k, names in enumerate((["A-L", "A-R", "A L", "A R", "A -L", "A -R"], ["A", "A", "A", "A-L", "A-R", "A L", "A R"], ["A"] * 9)):
+        jobs.append({"label": "akai-names", "faults": [[k, 0]], "names": [("names", ",".join(names))], "data": aw.build_image(naming.akai_files_case(names), chk.seed),
+                     "paths": ["", "A:", "A:/VOL", "A:/VOL/A"], "suffix": ".img", "extra": None})
+    for k, names in enumerate((["A", "A (2)", "A-L", "A-R"], ["A (2)", "A (3)", "A", "A", "A-L", "A-R"], ["A (2)", "A (2)", "A", "A", "A (3)"], ["A L"] * 7)):
+        jobs.append({"label": "roland-names", "faults": [[k, 0]], "names": [("names", ",".join(names))], "data": (lambda names=names: rw.build_image(naming.roland_files_case(names), chk.seed)),
+                     "size": 3_000_000, "paths": ["", "Vol", "Vol/Perf", "Vol/Perf/A"], "suffix": ".img", "extra": None})
+    for k, names in enumerate((["A", "A", "A (2)", "A (2)", "A (3)"], ["A L", "A R", "A-L", "A-R", "A", "A (2)"], ["A"] * 12)):
+        ls_, bl_ = naming.cue_lines(names)
+        jobs.append({"label": "cdda-names", "faults": [[k, 0]], "names": [("titles", ",".join(names))], "data": "".join(cue.render(ls_, 0, 1)).encode("ascii"),
+                     "paths": ["", "A", "A (2)"], "suffix": ".cue", "extra": {"image.bin": cue.bin_bytes(bl_, 1)}})
     # containers with untrusted length fields: an MDX header whose eof field is below / at / beyond the file, a MODE1/2352 file whose
     # first sector is valid and whose later sectors are cut or garbage
     (case, image, paths) = akai_base(chk)
